@@ -173,10 +173,10 @@ Definition rstep (strict : bool) (m : string) (segs : list string) (x : rroute) 
   end.
 Definition rbase (seen : bool) : rmatch := if seen then M405 else M404.
 
-Lemma resolve_run strict m segs rs : forall seen, resolve strict rs m segs seen = run (rstep strict m segs) rbase rs seen.
+Lemma resolve_run strict m segs rs : forall seen, resolve strict rs m segs seen = fm_run (rstep strict m segs) rbase rs seen.
 Proof.
   induction rs as [|[[rm t] h] rs IH]; intros seen; [reflexivity|].
-  cbn [resolve run rstep]. destruct (path_match strict t segs); [apply IH | |]; destruct (String.eqb m rm); try reflexivity; apply IH.
+  cbn [resolve fm_run rstep]. destruct (path_match strict t segs); [apply IH | |]; destruct (String.eqb m rm); try reflexivity; apply IH.
 Qed.
 
 Lemma rstep_ext strict m segs x k k' : (forall s, k s = k' s) -> forall s, rstep strict m segs x k s = rstep strict m segs x k' s.
